@@ -87,13 +87,13 @@ func (i *interpreter) initPackage(pkg *ssa.Package) {
 			}
 		}
 	}()
+	i.tolerantInit = initFn
 	call(i, nil, 0, initFn, nil)
 }
 
 // packages whose init is never run (heavy or irrelevant global state)
 var noInit = map[string]bool{
 	"runtime":          true,
-	"os":               true,
 	"syscall":          true,
 	"internal/poll":    true,
 	"internal/cpu":     true,
